@@ -31,13 +31,15 @@ FILES = {
     ),
     # the re-exporting package binds a name the moved objects use to something ELSE: what they name are globals of the module
     # they are written in
-    "rp/shapes/__init__.py": '"""Shapes."""\nfrom ._impl import Box, make\nfrom .other import Helper\n__all__ = ["Box", "make"]\n',
+    "rp/shapes/__init__.py": '"""Shapes."""\nfrom ._impl import Box, make, DEFAULT, Crate\nfrom .other import Helper\n__all__ = ["Box", "make", "DEFAULT", "Crate"]\n',
     "rp/shapes/_impl.py": (
         '"""Implementation."""\n'
         "class Helper:\n    'The helper of the implementation.'\n"
         "class Box:\n    'A box.'\n    tool: Helper = None\n"
         "    def use(self, h: Helper) -> 'Helper':\n        'Use.'\n"
         "def make(h: Helper) -> Box:\n    'Make.'\n"
+        "DEFAULT: Helper = None\n'A moved VARIABLE with an annotation.'\n"
+        "class Crate(Helper):\n    'A moved class whose BASE is named like something else in the re-exporting package.'\n"
     ),
     "rp/shapes/other.py": '"""Other."""\nclass Helper:\n    "Another helper."\n',
     "rp/user_old.py": '"""Names the defining module."""\nfrom rp._types import date\nimport rp._types\n'
@@ -59,6 +61,7 @@ EXPECT: List[Tuple[str, str, str, str]] = [
     ("rp.shapes.Box.html", "tool", "Helper", "rp.shapes._impl.Helper.html"),
     ("rp.shapes.html", "make", "Helper", "rp.shapes._impl.Helper.html"),
     ("rp.shapes.html", "make", "Box", "rp.shapes.Box.html"),
+    ("rp.shapes.html", "DEFAULT", "Helper", "rp.shapes._impl.Helper.html"),
     ("rp.user_old.Old.html", "f", "date", "rp.date.html"),
     ("rp.user_old.Old.html", "f", "rp._types.datetime", "rp.datetime.html"),
     ("rp.user_old.Old.html", "born", "date", "rp.date.html"),
@@ -112,5 +115,11 @@ def check(scratch: Path) -> List[Dict[str, Any]]:
         got = links(block, label)
         if not got or any(h != href and not (h.startswith("#") and href == page) for h in got):
             bad.append({"what": "annotation does not lead to the re-exported class", "page": page, "member": member, "label": label,
+                        "expected": href, "got": got})
+    # the header of a moved class (its bases) names globals of the module it was written in
+    for page, label, href in (("rp.shapes.Crate.html", "Helper", "rp.shapes._impl.Helper.html"),):
+        got = links((out / page).read_text(), label) if page in pages else []
+        if not got or any(h != href for h in got):
+            bad.append({"what": "the base in the header of a re-exported class does not lead to the class it names", "page": page, "label": label,
                         "expected": href, "got": got})
     return bad
